@@ -1235,8 +1235,12 @@ class Gen:
         other = self.spec(0)
         self.cfg["p_ref"] = save
         ref = {"ref": {"h": s, "path": []}}
-        shape = r.choice(["pair", "seq", "deep"])
-        if shape == "pair":
+        shape = r.choice(["pair", "seq", "deep", "union", "union"])
+        if shape == "union":
+            # the shared node sits in a Union-typed child field and is NOT the first alternative of the union
+            shared = {"c": "LeafB", "p": {"a": r.choice(self.cfg["pools"]["str"])}, "ch": {}, "o": o}
+            tree = {"c": "Mixed", "p": {}, "ch": {"items": [], "one": {"c": "Mixed", "p": {}, "ch": {"items": [], "one": other, "head": ref}, "o": o}, "head": ref}, "o": o}
+        elif shape == "pair":
             tree = {"c": "Pair", "p": {}, "ch": {"left": ref, "lhs": other, "right": ref}, "o": o}
         elif shape == "seq":
             tree = {"c": "Seq", "p": {}, "ch": {"items": [ref, other, ref]}, "o": o}
